@@ -285,7 +285,12 @@ func (p *parser) typeName() string {
 func (p *parser) iff() Expr {
 	x := p.implies()
 	for p.accept("<==>") {
-		y := p.implies()
+		var y Expr
+		if t := p.peek(); t.kind == "id" && (t.s == "forall" || t.s == "exists") {
+			y = p.expr()
+		} else {
+			y = p.implies()
+		}
 		x = &Binary{"<==>", x, y}
 	}
 	return x
